@@ -608,6 +608,7 @@ def case_wrap(env, s):
                          "eki": {"uid": wuid, "params": {"mode": "NIST_KEY_WRAP"}}}}
         shape = s.get("shape", "single")
         out.tuple_extra += "|" + shape
+        undecodable0 = H.Client.undecodable_responses
         extra = []          # (label, plain item result) to compare after the first answer
         if shape == "single":
             r = c.one(wget)
@@ -629,6 +630,12 @@ def case_wrap(env, s):
                 extra.append(("plain-get-in-same-batch", its[2]))
             extra.append(("wrapped-get-in-later-request", c.one(wget)))
             extra.append(("plain-get-in-later-request", c.one({"op": "Get", "uid": muid})))
+        if r["status"] == "REQUEST_ERROR" and r.get("reason") not in (None,) and \
+                H.Client.undecodable_responses > undecodable0:
+            # the answer to the wrapped Get cannot be decoded by the library itself
+            out.judged = True
+            out.fail("response-undecodable", "%s: %s" % (r.get("reason"), r.get("message")))
+            return out
         if r["status"] != "SUCCESS" or r["payload"] is None:
             return out.rejected()
         sec = r["payload"]["secret"]
